@@ -304,6 +304,101 @@ def r14_6(run):
     run.floor('R14.6', 'accepting paths through one loop iteration', k, 4)
 
 
+VALID_PORTS = (1, 22, 80, 443, 1024, 8080, 49152, 65534, 65535)
+
+
+def r14_9(run):
+    """the requested mappings reach the ADD_ONION: no valid TCP port number is refused by the port validators.  Every test that looks
+    at an int()-converted port through comparisons / range membership is evaluated for representative valid ports (both ends of
+    1..65535 and the constants' neighbours); a decided branch from which no normal exit is reachable refuses that port"""
+    units = [run.idx.unit(MOD + '.' + n) for n in ('_validate_single_port_string', '_validate_ports', '_validate_ports_low_level')]
+    examined = 0
+    for u in units:
+        if u is None:
+            continue
+        ints = set()
+        for n in walk_unit(u):
+            if isinstance(n, ast.Assign) and isinstance(n.value, ast.Call) and dotted(n.value.func) == 'int':
+                ints.update(t.id for t in n.targets if isinstance(t, ast.Name))
+        if not ints:
+            continue
+        g = cfg_of(u, may_raise=_int_may_raise)
+        normal = set(g.normal_exits())
+        for t in g.live:
+            if t.kind != 'test' or t.ast is None:
+                continue
+            names = [nm for nm in ints if mentions(t.ast, nm)]
+            if len(names) != 1:
+                continue
+            nm = names[0]
+            consts = [c.value for c in ast.walk(t.ast) if isinstance(c, ast.Constant) and isinstance(c.value, int) and not isinstance(c.value, bool)]
+            reps = sorted(set(VALID_PORTS) | set(v for v in representatives(consts) if 1 <= v <= 65535))
+            examined += 1
+            for v in reps:
+                r = eval_small(t.ast, {nm: v})
+                if r is UNKNOWN:
+                    continue
+                lab = 'T' if r else 'F'
+                succ = [s_ for l_, s_ in t.succ if l_ == lab]
+                if not succ:
+                    continue
+                reach = g.reachable(succ)
+                if not (reach & normal) and not any(n.kind == 'iter' for n in reach):
+                    run.ob('R14.9', u, t.ast, 'a valid TCP port passes every numeric test of the port validators', False, slot='valid-port-refused@%s' % u.name,
+                           message='%s refuses port %d (%s is %s and only raises follow): a request with that virtual port sends no ADD_ONION' % (u.name, v, src(t.ast)[:60], bool(r)))
+                    break
+    run.ob('R14.9', units[0] or units[1], (units[0] or units[1]).node, 'numeric port tests examined for %d representative valid ports (%d tests)' % (len(VALID_PORTS), examined), True)
+
+
+DECODERS = ('b64decode', 'b32decode', 'b16decode', 'unhexlify', 'a2b_base64', 'a2b_hex', 'decodebytes', 'standard_b64decode', 'urlsafe_b64decode', 'fromhex', 'decode')
+
+
+def r14_10(run):
+    """client-auth entries correspond exactly to the requested ones: a supplied token is opaque to txtorcon - it goes into
+    ClientAuth=name:token as given (R14.3) and the auth objects do not judge it.  In _AuthCommon (and its subclasses'
+    constructors) no refusal depends on the token's *contents*: no raise guarded by a test of a token other than a
+    line-break / blank membership test, no decoder applied to a token (Tor hands out unpadded base64 cookies that a
+    strict decoder refuses)"""
+    ac = run.idx.cls('_AuthCommon', MOD)
+    units = [m for c in [ac] + run.idx.subclasses(ac) for nm, m in c.methods.items() if nm == '__init__']
+    k = 0
+    for u in units:
+        # names that hold tokens: second target of an unpacked client pair / of items() of the stored mapping, values()
+        tok = set()
+        for n in walk_unit(u):
+            if isinstance(n, ast.Assign) and isinstance(n.targets[0], (ast.Tuple, ast.List)) and len(n.targets[0].elts) == 2 and isinstance(n.targets[0].elts[1], ast.Name):
+                tok.add(n.targets[0].elts[1].id)
+            if isinstance(n, (ast.For, ast.comprehension)):
+                it = src(n.iter)
+                if it.endswith('.items()') and isinstance(n.target, (ast.Tuple, ast.List)) and len(n.target.elts) == 2 and isinstance(n.target.elts[1], ast.Name):
+                    tok.add(n.target.elts[1].id)
+                elif it.endswith('.values()') and isinstance(n.target, ast.Name):
+                    tok.add(n.target.id)
+        if not tok:
+            continue
+        k += 1
+        g = cfg_of(u)
+
+        def on_token(e):
+            return [x.id for x in ast.walk(e) if isinstance(x, ast.Name) and x.id in tok]
+        for c in calls_in(u):
+            if (callee_attr(c) or dotted(c.func) or '').split('.')[-1] in DECODERS and any(on_token(a) for a in c.args):
+                run.ob('R14.10', u, c, 'no decoder is applied to a client token', False, slot='token-decoded@%s' % u.cls.simple,
+                       message='%s.__init__ runs %s on a client token: tokens that decoder refuses (e.g. the unpadded 22-character cookies Tor itself issues) '
+                               'make the request fail before any ADD_ONION' % (u.cls.simple, src(c.func)))
+        for r in [n for n in g.real_nodes() if n.kind == 'stmt' and isinstance(n.ast, ast.Raise)]:
+            for t, lab in g.guarded_by(r, lambda t_: bool(on_token(t_))):
+                a = t.ast
+                harmless = (isinstance(a, ast.Compare) and len(a.ops) == 1 and isinstance(a.ops[0], (ast.In, ast.NotIn)) and isinstance(a.left, ast.Constant)
+                            and isinstance(a.left.value, str) and a.left.value.strip(' \t') in ('', '\r', '\n', '\r\n')) or \
+                           (isinstance(a, ast.Compare) and len(a.ops) == 1 and isinstance(a.ops[0], (ast.Is, ast.IsNot)) and const(a.comparators[0]) is None) or \
+                           (isinstance(a, ast.Call) and dotted(a.func) == 'isinstance')
+                run.ob('R14.10', u, a, 'no refusal on the contents of a client token', harmless, slot='token-judged@%s' % u.cls.simple,
+                       message='%s.__init__ refuses the request depending on %s: a token the caller supplied is not passed on as given' % (u.cls.simple, src(a)[:60]))
+    run.floor('R14.10', 'auth constructors that see tokens', k, 1)
+    run.ob('R14.10', units[0], units[0].node, 'auth constructors examined for token judgements (%d)' % k, True)
+
+
 def r14_7(run):
     """(a) AuthBasic client entries: a (name, token) pair is recognised by its type, never by trying to unpack it - a str is a
     sequence too, so a two-character bare name would be split into a name and a token;
@@ -420,12 +515,18 @@ RULES = [
     ('R14.6', 'one processed mapping per accepted port entry (path enumeration of one iteration of _validate_ports)', r14_6),
     ('R14.7', 'client pairs recognised by type; sibling agreement of the port validators on the localhost exemption', r14_7),
     ('R14.8', 'who-may-refuse: refusals before ADD_ONION depend only on the request itself, not on other services of the configuration', r14_8),
+    ('R14.9', 'accept set: numeric tests on int()-converted ports evaluated for representative valid ports 1..65535; none leads only to a refusal', r14_9),
+    ('R14.10', 'tokens are opaque: no decoder applied to, and no refusal decided by, the contents of a client token in the auth constructors', r14_10),
     ('R14.5', 'options flow unchanged from create() to the service object and the helper', r14_5),
 ]
 
 from ..selftest import M  # noqa: E402
 F = 'txtorcon/onion.py'
 MUTANTS = [
+    M('virtual-port-range-off-by-one', F, "    if ':' not in internal:\n        raise ValueError(\n            \"Port '{}' local address", "    if external not in range(1, 65535):\n        raise ValueError('bad port')\n    if ':' not in internal:\n        raise ValueError(\n            \"Port '{}' local address", ['R14.9']),
+    M('virtual-port-privileged-only', F, "    if ':' not in internal:\n        raise ValueError(\n            \"Port '{}' local address", "    if external >= 49152:\n        raise ValueError('ephemeral range')\n    if ':' not in internal:\n        raise ValueError(\n            \"Port '{}' local address", ['R14.9']),
+    M('token-strict-base64', F, "        if any(' ' in client for client in self._clients.keys()):\n            raise ValueError(\"Client names can't have spaces\")\n", "        if any(' ' in client for client in self._clients.keys()):\n            raise ValueError(\"Client names can't have spaces\")\n        for name, blob in self._clients.items():\n            if blob is not None:\n                base64.b64decode(blob, validate=True)\n", ['R14.10']),
+    M('token-length-judged', F, "                client_name, keyblob = client\n", "                client_name, keyblob = client\n                if len(keyblob) % 4:\n                    raise ValueError('token is not base64')\n", ['R14.10']),
     M('collision-precheck', F, "    keystring = 'NEW:BEST'\n", "    for other in config.EphemeralOnionServices:\n        if other is not onion and other.private_key == onion.private_key:\n            raise ValueError('key in use')\n    keystring = 'NEW:BEST'\n", ['R14.8']),
     M('pair-form-refuses-localhost', F, "                    if not _is_non_public_numeric_address(ip):\n                        log.msg(\n                            \"'{}' used as onion port doesn't appear to be a \"\n                            \"local, numeric address\".format(ip)\n                        )", "                    if not _is_non_public_numeric_address(ip):\n                        raise ValueError('not local')", ['R14.7']),
     M('client-pair-by-unpacking', F, "            if isinstance(client, tuple):\n                client_name, keyblob = client\n                self._clients[client_name] = keyblob\n            else:\n                self._clients[client] = None", "            try:\n                client_name, keyblob = client\n            except ValueError:\n                client_name, keyblob = client, None\n            self._clients[client_name] = keyblob", ['R14.7']),
@@ -446,6 +547,7 @@ MUTANTS = [
 ]
 MUTANTS = [m for m in MUTANTS if m.name not in ('del-onion-wrong-slice', 'listener-after-command')]
 TWINS = [
+    M('virtual-port-full-range', F, "    if ':' not in internal:\n        raise ValueError(\n            \"Port '{}' local address", "    if external not in range(0, 65536):\n        raise ValueError('bad port')\n    if ':' not in internal:\n        raise ValueError(\n            \"Port '{}' local address"),
     M('flags-table-comprehension', F, "    flags = []\n    if onion._detach:\n        flags.append('Detach')\n    if onion.private_key is DISCARD:\n        flags.append('DiscardPK')", "    flags = []\n    if onion.private_key is DISCARD:\n        flags.append('DiscardPK')\n    if onion._detach:\n        flags.append('Detach')"),
     M('crlf-two-ifs', F, "    if '\\r' in keystring or '\\n' in keystring:\n        raise ValueError(\n            \"No newline or return characters allowed in key blobs\"\n        )\n", "    if '\\r' in keystring:\n        raise ValueError(\"No return characters allowed in key blobs\")\n    if '\\n' in keystring:\n        raise ValueError(\"No newline characters allowed in key blobs\")\n"),
 ]
